@@ -459,6 +459,36 @@ pub struct Ctx {
     pub extra: Mutex<BTreeMap<String, Value>>,
     replay_counter: AtomicU64,
     pub verif_root: String,
+    /// 0 = first pass (process-wide logging off); 1 = second pass of the simple-mdns
+    /// properties with a TRACE-level logger that formats every record
+    pass: std::sync::atomic::AtomicU8,
+}
+
+/// A process-wide `log` logger that accepts every record and formats its arguments into a
+/// sink: with the maximum level at TRACE every logging statement of the library is evaluated.
+pub struct SinkLogger;
+struct Sink;
+impl std::fmt::Write for Sink {
+    fn write_str(&mut self, s: &str) -> std::fmt::Result {
+        std::hint::black_box(s.len());
+        Ok(())
+    }
+}
+impl log::Log for SinkLogger {
+    fn enabled(&self, _: &log::Metadata) -> bool {
+        true
+    }
+    fn log(&self, record: &log::Record) {
+        let _ = std::fmt::Write::write_fmt(&mut Sink, *record.args());
+    }
+    fn flush(&self) {}
+}
+static SINK_LOGGER: SinkLogger = SinkLogger;
+
+/// Install the sink logger (once) and set the process-wide maximum level.
+pub fn set_logging(trace: bool) {
+    let _ = log::set_logger(&SINK_LOGGER);
+    log::set_max_level(if trace { log::LevelFilter::Trace } else { log::LevelFilter::Off });
 }
 
 const MAX_REPLAYS_PER_SIG: usize = 3;
@@ -500,6 +530,7 @@ impl Ctx {
             extra: Mutex::new(BTreeMap::new()),
             replay_counter: AtomicU64::new(0),
             verif_root,
+            pass: std::sync::atomic::AtomicU8::new(0),
         }
     }
 
@@ -521,7 +552,24 @@ impl Ctx {
 
     /// Record a declared space: its name, how many cases it contained, and its bound.
     pub fn space(&self, name: &str, cases: u64, bound: &str) {
+        let name = if self.pass.load(Ordering::Relaxed) == 1 { format!("[second pass, process-wide TRACE logging on] {}", name) } else { name.to_string() };
         self.spaces.lock().unwrap().push(json!({"space": name, "cases": cases, "bound": bound}));
+    }
+
+    /// Start the second pass of a simple-mdns property: the same spaces under a TRACE-level
+    /// logger (quick bounds in either tier).
+    pub fn second_pass(&self) {
+        self.pass.store(1, Ordering::Relaxed);
+        set_logging(true);
+    }
+
+    /// The tier whose bounds the property modules use: the second pass runs at quick bounds.
+    pub fn eff_tier(&self) -> Tier {
+        if self.pass.load(Ordering::Relaxed) == 1 {
+            Tier::Quick
+        } else {
+            self.tier
+        }
     }
 
     pub fn sample(&self, v: Value) {
@@ -545,6 +593,9 @@ impl Ctx {
     }
 
     pub fn assume(&self, s: &str) {
+        if self.assumptions.lock().unwrap().iter().any(|x| x == s) {
+            return;
+        }
         self.assumptions.lock().unwrap().push(s.to_string());
     }
 
@@ -574,7 +625,10 @@ impl Ctx {
     }
 
     /// Report a violation (thread-safe). Writes a replay artefact for the first few per signature.
-    pub fn violation(&self, f: Finding) {
+    pub fn violation(&self, mut f: Finding) {
+        if self.pass.load(Ordering::Relaxed) == 1 {
+            f.detail = format!("[with a process-wide TRACE-level logger installed] {}", f.detail);
+        }
         let mut sigs = self.sigs.lock().unwrap();
         let known = self.known_for(&f.sig);
         let e = sigs.entry(f.sig.clone()).or_insert_with(|| SigStat {
